@@ -16,6 +16,10 @@ struct url {
 #define STR_SHAPE(s) ((s).n <= STR_CAP && (s).d[(s).n] == 0)
 #define URL_SHAPE(u) ((u)->base.type >= 0 && (u)->base.type <= 6 && (u)->base.host_type >= 0 && (u)->base.host_type <= 2 && STR_SHAPE((u)->host.v) && STR_SHAPE((u)->path) && \
   STR_SHAPE((u)->query.v) && STR_SHAPE((u)->hash.v) && STR_SHAPE((u)->username) && STR_SHAPE((u)->password) && STR_SHAPE((u)->non_special_scheme))
+/* C19 record invariant of ada::url that the setters must preserve: "A URL cannot have a username/password/port if its host is
+ * null or the empty string, or its scheme is file" */
+#define URL_REC(u) (!(!(u)->host.has || (u)->host.v.n == 0 || (u)->base.type == 6 /* FILE, checked against the dumped enumerator in the harness */) || \
+                    ((u)->username.n == 0 && (u)->password.n == 0 && !(u)->port.has))
 #define URL_HAS_CRED(u) ((u)->username.n > 0 || (u)->password.n > 0)
 static inline _Bool str_eqv(const str_t *a, const str_t *b) { if (a->n != b->n) return 0; for (size_t i = 0; i < STR_CAP; i++) if (i < a->n && a->d[i] != b->d[i]) return 0; return 1; }
 static inline _Bool url_eqv(struct url a, struct url b) {
